@@ -1,1 +1,260 @@
-// harnesses for this module (included by the isomer_erbium_verif hook)
+// Kani harnesses for crates/erbium-core/src/dhcp/config.rs (C19: the dhcp-policies section is parsed totally
+// and what it accepts is safe to expand).  Yaml values are built by hand; mappings are empty or hold one
+// CONCRETE string key.  Filling a HashSet with symbolic addresses is out of CBMC's reach, so `apply-subnet` /
+// `apply-range` are driven only with values whose expansion is empty or fails before the first insert.
+#[cfg(kani)]
+mod k {
+    use super::super::*;
+    include!(concat!(env!("ISOMER_ERBIUM_VERIF_DIR"), "/_common.rs"));
+    use yaml_rust::yaml::Yaml;
+
+    fn is_invalid_config<T>(r: &Result<T, Error>) -> bool {
+        matches!(r, Err(Error::InvalidConfig(_)))
+    }
+    fn ascii<const N: usize>() -> String {
+        let b: [u8; N] = kani::any();
+        let mut i = 0;
+        while i < N {
+            kani::assume(b[i] < 128);
+            i += 1;
+        }
+        String::from(std::str::from_utf8(&b).unwrap())
+    }
+    fn with_tail<const N: usize>(head: &str) -> String {
+        let mut s = String::from(head);
+        s.push_str(&ascii::<N>());
+        s
+    }
+
+    const KIND_REAL: u8 = 0;
+    const KIND_INT: u8 = 1;
+    const KIND_STR: u8 = 2;
+    const KIND_BOOL: u8 = 3;
+    const KIND_ARR_NULL: u8 = 4; // [~]
+    const KIND_ARR_STRS: u8 = 5; // ["a", "b"]
+    const KIND_ALIAS: u8 = 6;
+    const KIND_NULL: u8 = 7;
+    const KIND_BAD: u8 = 8;
+    const KIND_ARR_EMPTY: u8 = 9; // []
+    const KIND_HASH_EMPTY: u8 = 10; // {}
+    const KIND_ARR_HASH_EMPTY: u8 = 11; // [{}]
+    fn yaml_of_kind(k: u8) -> Yaml {
+        match k {
+            KIND_REAL => Yaml::Real(String::from("1.5")),
+            KIND_INT => Yaml::Integer(kani::any()),
+            KIND_STR => Yaml::String(String::from("x")),
+            KIND_BOOL => Yaml::Boolean(kani::any()),
+            KIND_ARR_NULL => Yaml::Array(vec![Yaml::Null]),
+            KIND_ARR_STRS => Yaml::Array(vec![Yaml::String(String::from("a")), Yaml::String(String::from("b"))]),
+            KIND_ALIAS => Yaml::Alias(kani::any()),
+            KIND_NULL => Yaml::Null,
+            KIND_BAD => Yaml::BadValue,
+            KIND_ARR_EMPTY => Yaml::Array(Vec::new()),
+            KIND_HASH_EMPTY => Yaml::Hash(Default::default()),
+            _ => Yaml::Array(vec![Yaml::Hash(Default::default())]),
+        }
+    }
+
+    // -> accepted prefix length
+    fn subnet_on<const N: usize>() -> Option<u8> {
+        let y = Yaml::String(with_tail::<N>("10.0.0.0/"));
+        let r = Config::parse_subnet(&y);
+        assert!(matches!(r, Ok(Some(_)) | Err(Error::InvalidConfig(_))), "parse_subnet: a subnet or InvalidConfig");
+        let mut acc = None;
+        if let Ok(Some(s)) = &r {
+            assert!(s.addr == std::net::Ipv4Addr::new(10, 0, 0, 0), "address part");
+            assert!(s.prefixlen <= 32, "an accepted `match-subnet` / `apply-subnet` has a prefix length of at most 32 (apply-subnet computes `32 - prefixlen`)");
+            acc = Some(s.prefixlen);
+        }
+        std::mem::forget(r);
+        std::mem::forget(y);
+        acc
+    }
+
+    /// VERIF: {"p":"C19","tier":"quick","fns":["dhcp::config::Config::parse_subnet","erbium_net::Ipv4Subnet::new","erbium_net::Ipv4Subnet::netmask"],"bounds":"`match-subnet` / `apply-subnet` strings \"10.0.0.0/\" + every ASCII string of length 0,1,2,3","oracle":"Ok(subnet) or Err(InvalidConfig), never a panic / shift overflow; an accepted subnet has prefixlen <= 32","stubs":["alloc::fmt::format -> empty string (message text only)"],"covers":2,"unwind":16}
+    #[kani::proof]
+    #[kani::unwind(16)]
+    #[kani::stub(alloc::fmt::format, empty_format)]
+    fn c19_dhcp_parse_subnet_accepted_lengths() {
+        let n: u8 = kani::any();
+        let acc = match n {
+            0 => subnet_on::<0>(),
+            1 => subnet_on::<1>(),
+            2 => subnet_on::<2>(),
+            _ => subnet_on::<3>(),
+        };
+        kani::cover!(n == 2 && acc == Some(24), "10.0.0.0/24 accepted");
+        kani::cover!(n == 1 && acc.is_none(), "10.0.0.0/5 (host bits) or junk refused");
+    }
+
+    fn wrong_type_on(k: u8) {
+        let y = yaml_of_kind(k);
+        let r = Config::parse_subnet(&y);
+        match k {
+            KIND_NULL => assert!(matches!(r, Ok(None)), "parse_subnet: null is None"),
+            _ => assert!(is_invalid_config(&r), "parse_subnet refuses non-strings and \"x\" with InvalidConfig"),
+        }
+        std::mem::forget(r);
+        let r = Config::parse_number(&y);
+        match &y {
+            Yaml::Null => assert!(matches!(r, Ok(None)), "parse_number: null is None"),
+            Yaml::Integer(i) => assert!(matches!(r, Ok(Some(v)) if v == *i), "parse_number returns the integer"),
+            _ => assert!(is_invalid_config(&r), "parse_number refuses non-integers with InvalidConfig"),
+        }
+        std::mem::forget(r);
+        let r = Config::parse_routes(&y);
+        match k {
+            KIND_NULL => assert!(matches!(r, Ok(None)), "parse_routes: null is None"),
+            KIND_ARR_EMPTY => assert!(matches!(&r, Ok(Some(v)) if v.is_empty()), "parse_routes: [] is no routes"),
+            _ => assert!(is_invalid_config(&r), "parse_routes refuses non-lists, non-mapping entries and entries without prefix"),
+        }
+        std::mem::forget(r);
+        let r = Config::parse_policies(&y);
+        match k {
+            KIND_ARR_EMPTY => assert!(matches!(&r, Ok(v) if v.is_empty()), "parse_policies: [] is no policies"),
+            KIND_ARR_HASH_EMPTY => assert!(matches!(&r, Ok(v) if v.len() == 1 && !v[0].match_all && v[0].match_subnet.is_none() && v[0].apply_address.is_none() && v[0].policies.is_empty()), "parse_policies: [{}] is one policy with every default"),
+            _ => assert!(is_invalid_config(&r), "parse_policies refuses non-lists and non-mapping entries"),
+        }
+        std::mem::forget(r);
+        std::mem::forget(y);
+    }
+
+    /// VERIF: {"p":"C19","tier":"quick","fns":["dhcp::config::Config::parse_subnet","dhcp::config::Config::parse_number","dhcp::config::Config::parse_routes","dhcp::config::Config::parse_policies","dhcp::config::Config::parse_policy"],"bounds":"each parser on one value of every Yaml variant: Real, Integer(any), String \"x\", Boolean(any), `[~]`, `[\"a\",\"b\"]`, Alias(any), Null, BadValue, `[]`, `{}`, `[{}]`","oracle":"right shape => Ok; null => Ok(None) where null is allowed; everything else => Err(InvalidConfig); never a panic","stubs":["alloc::fmt::format -> empty string (message text only)","std::hash::RandomState::new -> fixed keys (creating empty maps)"],"covers":3,"unwind":6}
+    #[kani::proof]
+    #[kani::unwind(6)]
+    #[kani::stub(alloc::fmt::format, empty_format)]
+    #[kani::stub(std::hash::RandomState::new, fixed_random_state)]
+    fn c19_dhcp_parsers_wrong_type() {
+        let k: u8 = kani::any();
+        kani::cover!(k == 11, "[{}]");
+        kani::cover!(k == 9, "[]");
+        kani::cover!(k == 1, "integer");
+        match k {
+            0 => wrong_type_on(KIND_REAL),
+            1 => wrong_type_on(KIND_INT),
+            2 => wrong_type_on(KIND_STR),
+            3 => wrong_type_on(KIND_BOOL),
+            4 => wrong_type_on(KIND_ARR_NULL),
+            5 => wrong_type_on(KIND_ARR_STRS),
+            6 => wrong_type_on(KIND_ALIAS),
+            7 => wrong_type_on(KIND_NULL),
+            8 => wrong_type_on(KIND_BAD),
+            9 => wrong_type_on(KIND_ARR_EMPTY),
+            10 => wrong_type_on(KIND_HASH_EMPTY),
+            _ => wrong_type_on(KIND_ARR_HASH_EMPTY),
+        }
+    }
+
+    // -> accepted?
+    fn generic_int(name: &str, i: i64) -> bool {
+        let y = Yaml::Integer(i);
+        let r = Config::parse_generic(name, &y);
+        assert!(matches!(r, Ok((_, Some(_))) | Err(Error::InvalidConfig(_))), "parse_generic: a value or InvalidConfig");
+        let ok = r.is_ok();
+        std::mem::forget(r);
+        ok
+    }
+
+    /// VERIF: {"p":"C19","tier":"quick","fns":["dhcp::config::Config::parse_generic","dhcppkt::name_to_option","dhcppkt::DhcpOption::get_type","config::parse_duration","config::parse_boolean"],"bounds":"`apply-<option>: <any i64>` for one option of each numeric type: time-offset (i32), default-ttl (u8), mtu (u16), lease-time (seconds, 32 bit), rebind-time (seconds, 16 bit), forward (bool)","oracle":"accepted exactly when the integer fits the option's wire type (negative / huge values => Err(InvalidConfig)), boolean option refuses integers; never a panic or silent truncation","stubs":["alloc::fmt::format -> empty string (message text only)"],"covers":2,"unwind":90}
+    #[kani::proof]
+    #[kani::unwind(90)]
+    #[kani::stub(alloc::fmt::format, empty_format)]
+    fn c19_dhcp_parse_generic_integers() {
+        let i: i64 = kani::any();
+        let w: u8 = kani::any();
+        kani::cover!(w == 3 && i < 0, "negative lease time");
+        kani::cover!(w == 1 && i == 64, "ttl 64");
+        match w {
+            0 => assert!(generic_int("time-offset", i) == (i32::MIN as i64..=i32::MAX as i64).contains(&i), "i32 option"),
+            1 => assert!(generic_int("default-ttl", i) == (0..=255).contains(&i), "u8 option"),
+            2 => assert!(generic_int("mtu", i) == (0..=65535).contains(&i), "u16 option"),
+            3 => assert!(generic_int("lease-time", i) == (0..=u32::MAX as i64).contains(&i), "32-bit seconds option"),
+            4 => assert!(generic_int("rebind-time", i) == (0..=65535).contains(&i), "16-bit seconds option"),
+            _ => assert!(!generic_int("forward", i), "boolean option refuses integers"),
+        }
+    }
+
+    // ---- policies with one concrete key ----------------------------------------------------------------
+    fn hash1(k: &str, v: Yaml) -> Yaml {
+        let mut h = yaml_rust::yaml::Hash::new();
+        h.insert(Yaml::String(String::from(k)), v);
+        Yaml::Hash(h)
+    }
+
+    fn str_of(head: &str, tail: &[u8]) -> String {
+        let mut v = Vec::with_capacity(head.len() + tail.len());
+        v.extend_from_slice(head.as_bytes());
+        v.extend_from_slice(tail);
+        String::from(std::str::from_utf8(&v).unwrap())
+    }
+
+    /// VERIF: {"p":"C19","tier":"thorough","fns":["dhcp::config::Config::parse_policy (apply-subnet expansion, dhcp/config.rs:478-489)","dhcp::config::Config::parse_subnet","erbium_net::Ipv4Subnet::new"],"bounds":"policy {apply-subnet: S} with S = \"192.0.2.0/3\" + one symbolic ASCII octet assumed to be one of '1','2' or a non-digit (so /31, /32 or refused: expansions that are empty - no HashSet insert), or S = \"0.0.0.0/\" + one symbolic ASCII octet assumed not in '1'..='9' (so /0 or refused)","oracle":"Ok(policy) or Err(InvalidConfig): the host-range arithmetic `1..((1 << (32 - prefixlen)) - 1) - 1` never overflows / panics","stubs":["alloc::fmt::format -> empty string (message text only)","std::hash::RandomState::new -> fixed keys"],"covers":1,"unwind":16}
+    #[kani::proof]
+    #[kani::unwind(16)]
+    #[kani::stub(alloc::fmt::format, empty_format)]
+    #[kani::stub(std::hash::RandomState::new, fixed_random_state)]
+    fn c19_dhcp_apply_subnet_boundary_lengths() {
+        let w: bool = kani::any();
+        let c: u8 = kani::any();
+        kani::assume(c < 128);
+        let ok = if w {
+            kani::assume(c == b'1' || c == b'2' || !c.is_ascii_digit());
+            apply_subnet_str(str_of("192.0.2.0/3", &[c]))
+        } else {
+            kani::assume(!(b'1'..=b'9').contains(&c));
+            apply_subnet_str(str_of("0.0.0.0/", &[c]))
+        };
+        kani::cover!(w && c == b'1' && ok, "192.0.2.0/31 accepted (no hosts)");
+    }
+    fn apply_subnet_str(s: String) -> bool {
+        let y = hash1("apply-subnet", Yaml::String(s));
+        let r = Config::parse_policy(&y);
+        assert!(matches!(r, Ok(_) | Err(Error::InvalidConfig(_))), "parse_policy: a policy or InvalidConfig");
+        let ok = r.is_ok();
+        std::mem::forget(r);
+        std::mem::forget(y);
+        ok
+    }
+
+    /// VERIF: {"p":"C19","tier":"thorough","fns":["dhcp::config::Config::parse_policy (apply-subnet)","dhcp::config::Config::parse_subnet","erbium_net::Ipv4Subnet::new"],"bounds":"policy {apply-subnet: \"10.0.0.0/\" + two symbolic ASCII octets assumed NOT to spell a number in 07..=30} (so the over-long lengths /33../99, /31, /32, host-bit errors and junk; the lengths whose expansion would fill a HashSet are excluded)","oracle":"Ok(policy) or Err(InvalidConfig), never a panic","stubs":["alloc::fmt::format -> empty string (message text only)","std::hash::RandomState::new -> fixed keys"],"covers":1,"unwind":16}
+    #[kani::proof]
+    #[kani::unwind(16)]
+    #[kani::stub(alloc::fmt::format, empty_format)]
+    #[kani::stub(std::hash::RandomState::new, fixed_random_state)]
+    fn c19_dhcp_apply_subnet_overlong_lengths() {
+        let a: u8 = kani::any();
+        let b: u8 = kani::any();
+        kani::assume(a < 128 && b < 128);
+        if a.is_ascii_digit() && b.is_ascii_digit() {
+            let n = (a - b'0') * 10 + (b - b'0');
+            kani::assume(n < 7 || n > 30);
+        }
+        // "+N" is a number too for u8::from_str
+        kani::assume(a != b'+');
+        let ok = apply_subnet_str(str_of("10.0.0.0/", &[a, b]));
+        kani::cover!(a == b'3' && b == b'1' && ok, "10.0.0.0/31 accepted");
+    }
+
+    /// VERIF: {"p":"C19","tier":"thorough","fns":["dhcp::config::Config::parse_routes (dhcp/config.rs:109-195)"],"bounds":"`apply-routes`-style list with one entry {prefix: S}: S = \"192.0.2.0\" + every ASCII string of length 0,1,2,3 appended (so no slash at all, \"/\", \"/x\", \"/24\", \"/99\", ...)","oracle":"Ok or Err(InvalidConfig) (an entry without next-hop is always refused), never a panic (`it.next().unwrap().parse().unwrap()`)","stubs":["alloc::fmt::format -> empty string (message text only)","std::hash::RandomState::new -> fixed keys"],"covers":1,"unwind":16}
+    #[kani::proof]
+    #[kani::unwind(16)]
+    #[kani::stub(alloc::fmt::format, empty_format)]
+    #[kani::stub(std::hash::RandomState::new, fixed_random_state)]
+    fn c19_dhcp_parse_routes_prefix_string() {
+        let n: u8 = kani::any();
+        kani::cover!(n == 0xA5, "reached");
+        match n {
+            0 => route_on::<0>(),
+            1 => route_on::<1>(),
+            2 => route_on::<2>(),
+            _ => route_on::<3>(),
+        }
+    }
+    fn route_on<const N: usize>() {
+        let y = Yaml::Array(vec![hash1("prefix", Yaml::String(with_tail::<N>("192.0.2.0")))]);
+        let r = Config::parse_routes(&y);
+        assert!(is_invalid_config(&r), "a route without next-hop is refused with InvalidConfig");
+        std::mem::forget(r);
+        std::mem::forget(y);
+    }
+}
